@@ -629,6 +629,20 @@ class Executor:
     def stmt_While(self, node):
         self.exec_loop(node)
 
+    def stmt_Delete(self, node):
+        """del d[k] for a typed dict: the key leaves the key list, the map is left as it is"""
+        for t in node.targets:
+            if not isinstance(t, ast.Subscript):
+                raise Unsupported("del of something other than d[k]")
+            d = self.eval(t.value)
+            k = self.eval(t.slice)
+            if not (isinstance(d, VDict) and hasattr(k, "t") and k.t.sort() == d.kt.sort()):
+                raise Unsupported("del d[k] on this container")
+            self.oblige("noraise.key", node, self.mem_keys(d.keys, k.t))
+            new = VDict(L.remove_key(d.kt.sort())(d.keys, k.t), d.val, d.et, d.kt)
+            self.st.assume(distinct_keys(new.keys, new.KL))
+            self.rebind(t.value, d, new)
+
     def stmt_Break(self, node):
         raise BreakExc()
 
@@ -649,6 +663,9 @@ class Executor:
                 v = self.coerce(v, lt, target.id)
             st.env[target.id] = v
         elif isinstance(target, (ast.Tuple, ast.List)):
+            if isinstance(v, VOptional) and isinstance(v.val, VTuple):
+                self.oblige("noraise.unpack_none", target, z3.Not(v.isnone))  # unpacking None raises TypeError
+                v = v.val
             if isinstance(v, VTuple):
                 if len(v.items) != len(target.elts):
                     raise Unsupported("tuple arity")
@@ -1058,6 +1075,16 @@ class Executor:
                     recv = f.value
                     if isinstance(recv, ast.Subscript) and isinstance(recv.value, ast.Name) and isinstance(ex.st.env.get(recv.value.id), (VDict, VList)):
                         names.add(recv.value.id)  # d[k].append(x) on a local container: d changes
+                    elif isinstance(recv, ast.Subscript) and isinstance(recv.value, ast.Attribute) and not (isinstance(recv.slice, ast.Constant) and isinstance(recv.slice.value, str)):
+                        # obj.field[k].add(x): the container held in that field changes
+                        try:
+                            o = ex.eval(recv.value.value)
+                        except Exception:
+                            o = None
+                        if isinstance(o, VRef) and ex.st.obj(o.ref)["kind"] == "obj":
+                            heap.add(("field", o.ref, recv.value.attr))
+                        else:
+                            raise Unsupported("loop body mutates a container through an unsupported path")
                     elif isinstance(recv, ast.Subscript) and isinstance(recv.slice, ast.Constant) and isinstance(recv.slice.value, str):
                         try:
                             o = ex.eval(recv.value)
@@ -1273,6 +1300,11 @@ class Executor:
                 return VStr(self.st.fresh_const("text", StrSort))
             if attr == "weak":
                 return VBool(self.st.fresh_const("weak", L.Bool))
+            if attr == "index":
+                from . import lib as _lib
+
+                self.oblige("noraise.attr_index", node, _lib.has_index(o.t))  # AttributeError if never set
+                return VInt(_lib.cidx(o.t))
             return VCallable(f"method:Conditional.{attr}", bound=o)
         if isinstance(o, VRef):
             rec = st.obj(o.ref)
